@@ -929,10 +929,12 @@ int bufr_descriptor_set_bitsvalue ( BufrDescriptor *cb , uint64_t ival )
    if (ival == msng)
       {
 /*
- * special case for descriptor 31000 where 1 is 1 not -1
+ * regulation 94.1.5 does not apply to the numeric elements of class 31: all ones is
+ * a count there, not a missing value (031000 where 1 is 1 not -1, 031001 where 255
+ * is 255), as when the data are not compressed
  */
-      if ((cb->descriptor == 31000)&&(cb->encoding.nbits == 1))
-         iv = 1;
+      if ((cb->encoding.type == TYPE_NUMERIC)&&(DESC_TO_X( cb->descriptor ) == 31))
+         iv = ival;
       else
          iv = -1 ;
       }
